@@ -9,6 +9,7 @@
      is made only for units < 2^31 (elt_ok) and is refuted beyond (wchar_unsigned_refuted).     *)
 From Coq Require Import NArith ZArith List Bool.
 From ST Require Import Base.Outcome Base.Units Str.Model Str.CompareSpec Str.CompareModel Str.CompareProofs.
+From ST Require Str.LeafBridge Gen.Leaf.
 Import ListNotations.
 Local Open Scope N_scope.
 
@@ -200,3 +201,13 @@ Proof.
         (conj elt_ok_inhabited (conj nul_free_inhabited ci_equiv_inhabited))))).
 Qed.
 Print Assumptions hypotheses_inhabited.
+
+(* ---- tie by translation: the leaf functions below are translated from the clang AST of the CURRENT headers into
+   Gen/Leaf.v on every run (tools/leaf_translate.py: C++ integer semantics written out over Z); the hand-written
+   model functions used by every theorem above compute the same values, so an edit to one of these functions in the
+   headers breaks this obligation whatever the test generators do ---- *)
+Theorem case_folding_matches_source : forall c, c < 256 ->
+  ST.Str.LeafBridge.uchar (ST.Gen.Leaf.src_cl_fast_lower (ST.Str.LeafBridge.schar c)) = cl_fast_lower c /\
+  ST.Str.LeafBridge.uchar (ST.Gen.Leaf.src_cl_fast_upper (ST.Str.LeafBridge.schar c)) = cl_fast_upper c.
+Proof. exact (fun c H => conj (ST.Str.LeafBridge.cl_fast_lower_matches_source c H) (ST.Str.LeafBridge.cl_fast_upper_matches_source c H)). Qed.
+Print Assumptions case_folding_matches_source.
